@@ -1105,6 +1105,50 @@ PRELUDE = ("from typing import Any, Literal, Type, Union\nfrom collections.abc i
            "def opq() -> bool:\n    raise NotImplementedError\n")
 
 
+# ---------------------------------------------------------------------------
+# oracle-only stream (no model): conditions whose *value* is a union of constrained members
+# (`A if f() else B`, `y = A and B; if y:`): the constraint is stacked_scopes.AlternativesConstraint,
+# whose negation is again a disjunction.  An object may take the positive branch if A or B holds for it,
+# the negative branch if A or B fails for it; either way it has to be in the value of that branch.
+
+SAFE_VALUES = [(("typed", "int"), ()), (("typed", "str"), ()), (("typed", "bool"), ()), (("known", ("none",)), ()), (("tuple", ((False, "int"),)), ()),
+               (("tuple", ((False, "int"), (False, "str"))), ()), (("tuple", ((True, "int"),)), ()), (("gen", ("list", "int")), ()), (("known", ("int", 1)), ()),
+               (("known", ("str", "a")), ()), (("typed", "object"), ())]
+SAFE_LEAVES = [("isinstance", ("int",)), ("isinstance", ("str",)), ("isinstance", ("tuple",)), ("isinstance", ("int", "str")), ("is", ("none",)),
+               ("eq", ("int", 1)), ("eq", ("str", "a")), ("in", (("int", 1), ("str", "a"))), ("not", ("is", ("none",))), ("not", ("isinstance", ("str",))),
+               ("not", ("eq", ("int", 1))), ("isinstance", ("list",)), ("isinstance", ("NoneType",)), ("isinstance", ("bool",))]
+
+
+def alt_cases(rng, n):
+    out = []
+    for _ in range(n):
+        v = tuple(dict.fromkeys(rng.choice(SAFE_VALUES) for _ in range(rng.choice([2, 3, 3]))))
+        a, b = rng.choice(SAFE_LEAVES), rng.choice(SAFE_LEAVES)
+        out.append((v, rng.choice(["ifexp", "andvalue", "orvalue"]), a, b))
+    return out
+
+
+def alt_src(i, v, shape, a, b):
+    ann = value_src(v)
+    ea, eb = cond_src(a, [], i), cond_src(b, [], i)
+    if shape == "ifexp":
+        return f"def f_{i}(x: {ann}):\n    if ({ea}) if opq() else ({eb}):\n        M1 = x\n    else:\n        M2 = x\n"
+    op = "and" if shape == "andvalue" else "or"
+    return f"def f_{i}(x: {ann}):\n    y_ = ({ea}) {op} ({eb})\n    if y_:\n        M1 = x\n    else:\n        M2 = x\n"
+
+
+def alt_may_take(shape, a, b, o, pol):
+    """can an object take this branch for some value of the opaque flag?"""
+    try:
+        ha, hb = py_holds(a, o), py_holds(b, o)
+    except Raises:
+        return False
+    if shape == "ifexp":
+        return ha == pol or hb == pol
+    res = (ha and hb) if shape == "andvalue" else (ha or hb)
+    return res == pol
+
+
 def impl_e2e(srcs):
     """srcs: {case index: source}.  Returns {index: [pos, neg]} of decoded inferred values."""
     from pyanalyze.ast_annotator import annotate_code
@@ -1443,6 +1487,28 @@ def run(tier: str, replay: str | None = None):
         e2e = {}
         rep.violation({"kind": "broken-correspondence", "correspondence": "Model.narrow vs annotate_code (end to end)", "detail": repr(ex)[-1500:]}, no_failing_input=True)
 
+    # 3b. oracle-only stream for union-valued conditions (AlternativesConstraint)
+    alts = alt_cases(random.Random(lib.seed() * 7331 + 5), 0 if replay else (120 if tier == "quick" else 1500))
+    alt_failures = []
+    try:
+        alt_res = impl_e2e({k: alt_src(k, *ac) for k, ac in enumerate(alts)}) if alts else {}
+        for k, (v, shape, a, b) in enumerate(alts):
+            outs = alt_res.get(k)
+            if not outs:
+                continue
+            for pol, out in zip((True, False), outs):
+                if not isinstance(out, frozenset):
+                    continue
+                for lo, o in zip(objs, pyobjs):
+                    if py_member(o, v) and py_cond_ok(a, o) and py_cond_ok(b, o) and alt_may_take(shape, a, b, o, pol) and not py_member(o, tuple(out)):
+                        alt_failures.append((k, pol, lo, sorted(map(str, out))))
+    except Exception as ex:
+        rep.violation({"kind": "broken-correspondence", "correspondence": "oracle-only stream (union-valued conditions)", "detail": repr(ex)[-1500:]}, no_failing_input=True)
+    for (k, pol, lo, out) in alt_failures[:3]:
+        v, shape, a, b = alts[k]
+        rep.violation({"kind": "failing-input", "route": "e2e-union-valued-condition", "input": {"value": v, "shape": shape, "a": a, "b": b}, "branch": pol, "object": lit_src(lo),
+                       "source": alt_src(k, v, shape, a, b), "observed": out, "expected": "an object that can take the branch stays in the value of that branch"})
+
     _t["e2e"] = _time.time()
     # 4. model: join the evaluation thread started above
     if model_thread is not None:
@@ -1648,6 +1714,8 @@ def run(tier: str, replay: str | None = None):
         oracle_failures_attributed={k: True for k in known_hits},
         spec_vs_cpython_pairs=len(full_idx) * len(objs) if model is not None else 0,
         exhaustive=(tier == "thorough" and not replay),
+        union_valued_condition_cases=len(alts),
+        union_valued_condition_failures=len(alt_failures),
         stage_seconds={"impl_api": round(_t["api"] - _t["start"], 1), "impl_e2e": round(_t["e2e"] - _t["api"], 1),
                        "model_vm_compute": round(_t["model"] - _t["e2e"], 1), "oracle_and_verdicts": round(_time.time() - _t["model"], 1)},
     )
